@@ -114,13 +114,20 @@ static GenProg seq_program(long idx) {
   if (idx < SEQ_PAIRS) { i2 = idx % SEQ_NI; idx /= SEQ_NI; i1 = idx % SEQ_NI; idx /= SEQ_NI; b = idx % SEQ_NC; a = idx / SEQ_NC; }
   else if (idx < SEQ_PAIRS + SEQ_BARE) { idx -= SEQ_PAIRS; i3 = idx % SEQ_NI; idx /= SEQ_NI; i2 = idx % SEQ_NI; i1 = idx / SEQ_NI; }
   else { idx -= SEQ_PAIRS + SEQ_BARE; i3 = idx % SEQ_NI; idx /= SEQ_NI; i2 = idx % SEQ_NI; idx /= SEQ_NI; i1 = idx % SEQ_NI; idx /= SEQ_NI; b = idx % SEQ_NC; a = idx / SEQ_NC; }
-  const u32 dataw = 40, sp = 60;
-  std::vector<unsigned char> t;
-  t.push_back(0x97); t.push_back(0); t.push_back(0); t.push_back(0);
+  // the data words sit below word 16, so that loads and stores of them are one-byte instructions; a bare triple of one-byte instructions
+  // is placed at byte 0 itself (the first three clocks after reset), with the branch over the stack-pointer word behind it
+  const u32 dataw = 12, sp = 60;
+  std::vector<unsigned char> t, tri;
+  if (a < 0) { seq_instr(tri, i1, dataw); seq_instr(tri, i2, dataw); seq_instr(tri, i3, dataw); }
+  bool at0 = a < 0 && tri.size() == 3;
+  if (at0) { t = tri; t.push_back(0x94); }
+  else { t.push_back(0x97); t.push_back(0); t.push_back(0); t.push_back(0); }
   for (int l = 0; l < 4; l++) t.push_back((sp >> (8 * l)) & 0xFF);
   if (a >= 0) { enc(t, 3, CV[a]); enc(t, 4, CV[b]); }
-  seq_instr(t, i1, dataw); seq_instr(t, i2, dataw);
-  if (i3 >= 0) seq_instr(t, i3, dataw);
+  if (!at0) {
+    seq_instr(t, i1, dataw); seq_instr(t, i2, dataw);
+    if (i3 >= 0) seq_instr(t, i3, dataw);
+  }
   for (int k = 0; k < 4; k++) t.push_back(0x30 + k);          // LDAC 0..3: which filler a branch lands on is visible in areg
   enc(t, 1, 1); enc(t, 8, 2); enc(t, 3, 0); t.push_back(0xD3);  // exit(areg)
   while (t.size() % 4) t.push_back(0);
